@@ -39,6 +39,10 @@ class InotifyBuffer(BaseThread):
         """
         return self._queue.get()
 
+    def remove_tree_watches(self, path: bytes) -> None:
+        """Stops watching ``path`` and what lies below it (a directory that left the tree)."""
+        self._inotify.remove_tree_watches(path)
+
     def on_thread_stop(self) -> None:
         self._inotify.close()
         self._queue.close()
